@@ -161,7 +161,8 @@ def long_chain_case(ctx, idx, rng):
     L = int(rng.choice([40, 80, 160, 320])) if name == 'ising' else int(rng.choice([40, 80, 120]))
     key = (name, L, idx % 3)
     if key not in _LONG_H:
-        _LONG_H[key] = gen.model(name, L, gen.generic_params(rng))
+        # parameters from a generator of the cache key alone: the case generator is consumed identically whether or not the operator is cached (replayable cases)
+        _LONG_H[key] = gen.model(name, L, gen.generic_params(np.random.default_rng([ctx.seed, L, idx % 3, len(name)])))
     H = _LONG_H[key]
     psi = gen.rand_mps(rng, H.qd, L, 'random', Dmax=int(rng.choice([2, 4])), kind=str(rng.choice(['complex', 'real'])))
     m2, e2 = refs.mps_overlap_log(psi.A, psi.A)
@@ -187,23 +188,32 @@ def long_chain_case(ctx, idx, rng):
     ctx.case(('long-chain', name, f'L{L}', f'log2norm~{int(target)}'), sample={'model': name, 'L': L, 'bond_dims': psi.bond_dims[:12], 'log2_norm_target': target})
     detail = {'model': name, 'L': L, 'log2_norm_target': target, 'qd': psi.qd}
 
-    def rel(mon, got, want_m, want_e, scale_log2):
+    def rel(mon, got, want_m, want_e, scale_log2, extra=0.0):
         # compare got with want_m * 2**want_e relative to 2**scale_log2
         g = complex(got)
         if not ctx.ok(mon + '.finite', bool(np.isfinite(g.real) and np.isfinite(g.imag)), f'{got!r}', detail):
             return
         k = int(round(scale_log2))
         dev = abs(_ldexp(g, -k) - want_m * 2.0 ** (want_e - k))
-        ctx.close(mon, dev, 1e-9, f'deviation relative to 2**{k}', detail)
+        ctx.close(mon, dev, 1e-9 + extra, f'deviation relative to 2**{k}', detail)
     mpp, epp = refs.mps_overlap_log(psi.A, psi.A)
     mcc, ecc = refs.mps_overlap_log(chi.A, chi.A)
     mcp, ecp = refs.mps_overlap_log(chi.A, psi.A)
+    # conditioning of the contraction on THIS state: double versus long double evaluation of the same transfer-matrix product. Three independent
+    # evaluations (library, double reference, long-double reference) of a 120-site overlap were seen to differ by 4e-8 / 9e-9; the tolerance carries
+    # 50 x the measured double-precision error of the reference itself
+    xpp, fpp = refs.mps_overlap_log(psi.A, psi.A, extended=True)
+    xcp, fcp = refs.mps_overlap_log(chi.A, psi.A, extended=True)
+    cond_pp = float(abs(np.clongdouble(mpp) * np.ldexp(np.longdouble(1), epp - fpp) - xpp) / max(abs(xpp), 1e-300))
+    cond_cp = float(abs(np.clongdouble(mcp) * np.ldexp(np.longdouble(1), ecp - fcp) - xcp) / max(abs(xcp), 1e-300))
+    cond = 50.0 * max(cond_pp, cond_cp)
+    ctx.event('long_chain_contraction_error>1e-10' if cond > 50e-10 else 'long_chain_contraction_error<=1e-10')
     lp = (epp + np.log2(abs(mpp))) / 2
     lc = (ecc + np.log2(abs(mcc))) / 2
     with monitor.write_protected(psi, chi, H):
-        rel('long.vdot', ptn.vdot(chi, psi), mcp, ecp, lp + lc)
-        rel('long.vdot.swap', ptn.vdot(psi, chi), np.conj(mcp), ecp, lp + lc)
-        rel('long.norm', ptn.norm(psi), np.sqrt(abs(mpp)) * 2.0 ** ((epp % 2) / 2), epp // 2, lp)
+        rel('long.vdot', ptn.vdot(chi, psi), mcp, ecp, lp + lc, cond)
+        rel('long.vdot.swap', ptn.vdot(psi, chi), np.conj(mcp), ecp, lp + lc, cond)
+        rel('long.norm', ptn.norm(psi), np.sqrt(abs(mpp)) * 2.0 ** ((epp % 2) / 2), epp // 2, lp, cond)
         # expectation values: normalise by exact powers of two first (so that plain transfer-matrix references stay in range)
         kp = int(round(lp))
         sp = ptn.MPS(psi.qd, [q.copy() for q in psi.qD], fill='postpone')
@@ -216,9 +226,9 @@ def long_chain_case(ctx, idx, rng):
         want = refs.mpo_element(sp.A, H.A, sp.A)
         nH = float(np.sum([np.linalg.norm(w) for w in H.A]))
         got = ptn.operator_average(sp, H)
-        ctx.close('long.operator_average', abs(complex(got) - want), 1e-9 * max(1.0, nH), 'operator_average on a long chain', detail)
+        ctx.close('long.operator_average', abs(complex(got) - want), (1e-9 + cond) * max(1.0, nH), 'operator_average on a long chain', detail)
         got2 = ptn.operator_inner_product(sp, H, sp)
-        ctx.close('long.operator_inner_product', abs(complex(got2) - want), 1e-9 * max(1.0, nH), 'operator_inner_product on a long chain', detail)
+        ctx.close('long.operator_inner_product', abs(complex(got2) - want), (1e-9 + cond) * max(1.0, nH), 'operator_inner_product on a long chain', detail)
 
 
 def huge_bond_case(ctx, idx, rng):
